@@ -341,7 +341,7 @@ def run(ctx):
         if not err:
             t_dom = time.time()
             # quick tier: the first cases (generation order is random; a C01 case costs ~1 s: up to 40 curves x 22 rows)
-            dcases = cases if ctx.thorough else cases[:DOMAIN_SAMPLE // 2]
+            dcases = cases[:(DOMAIN_SAMPLE * 4 if ctx.thorough else DOMAIN_SAMPLE // 2)]
             dom, derr = domain_counts("c01dom", dcases, 1)     # one case per coqc: a wrapped case can cost 30 s
             res.extra["domain_eval_s"] = round(time.time() - t_dom, 1)
             if derr:
